@@ -21,7 +21,10 @@ import (
 )
 
 type OpA struct {
-	Kind  string `json:"kind"` // task raw relay upload checkin
+	Kind  string `json:"kind"` // task raw relay upload checkin bulk
+	// bulk: N1 small jobs queued one after the other by the same real call (Tmpl "raw":
+	// operator-path jobs with distinct request ids, "relay": SOCKS write jobs with request id 0;
+	// Size data bytes each), with a check-in after every N2 of them (N2 = 0: none)
 	Agent int    `json:"agent"`
 	Tmpl  string `json:"tmpl,omitempty"`
 	Text  string `json:"text,omitempty"`
@@ -158,6 +161,31 @@ func genA(t *rapid.T) CaseA {
 		}
 		c.Ops = append(c.Ops, op)
 	}
+	// SCALE (1 case in 25): one or two bulks of a threshold-adjacent number of small jobs are
+	// put before / between / after the ordinary operations generated above
+	if agentfx.Weighted(t, "scale", 24, 1) == 1 {
+		nb := 1 + agentfx.Weighted(t, "nbulk", 3, 1)
+		for b := 0; b < nb; b++ {
+			op := OpA{Kind: "bulk", Agent: agentfx.Bits(t, "agent", 2) % c.Agents}
+			op.Tmpl = []string{"raw", "relay"}[agentfx.Bits(t, "bulkpath", 1)]
+			op.Cmd = rapid.SampledFrom(rawSmallA).Draw(t, "cmd")
+			op.N1 = genScale(t, "bulk", 8193, 16385)
+			op.Size = rapid.IntRange(0, 40).Draw(t, "size")
+			op.Off = rapid.IntRange(0, 4096).Draw(t, "off")
+			if agentfx.Weighted(t, "bulkcheckins", 13, 7) == 1 {
+				op.N2 = []int{1, 1, 2, 3, 16, 100, 1000, 1024}[agentfx.Bits(t, "step", 3)]
+			}
+			ins := []OpA{op}
+			// a bulk that stays queued is followed (3 of 4) by one task of a large size class
+			// for the same agent: the reply that takes the bulk meets the size decisions
+			if op.N2 == 0 && agentfx.Weighted(t, "bulkthenbig", 1, 3) == 1 {
+				ins = append(ins, OpA{Kind: "raw", Agent: op.Agent, Tag: rapid.Bool().Draw(t, "tag"), Off: rapid.IntRange(0, 4096).Draw(t, "off"),
+					Class: bigClsA[agentfx.Bits(t, "class", 3)], Cmd: rapid.SampledFrom(rawBigA).Draw(t, "cmd"), Delta: rapid.IntRange(-1, 1).Draw(t, "delta")})
+			}
+			at := rapid.IntRange(0, len(c.Ops)).Draw(t, "bulkat")
+			c.Ops = append(c.Ops[:at:at], append(ins, c.Ops[at:]...)...)
+		}
+	}
 	return c
 }
 
@@ -250,6 +278,8 @@ type obsA struct {
 	cut, escape, edge, notAsked bool
 	batches, multi, kinds       int
 	prepErr                     bool
+	// scale: check-ins performed, most tasks in one reply, most tasks in one reply that left a remainder
+	checkins, maxBatch, maxCutBatch int
 }
 
 var lastA obsA
@@ -392,6 +422,43 @@ func checkA(c CaseA) *core.Violation {
 			uu.via = via
 			m.q = append(m.q, uu)
 			lastA.kinds |= 8
+		case "bulk":
+			n := op.N1
+			if n > 65535 {
+				n = 65535 // request ids below carry the index in 16 bits
+			}
+			size := op.Size & 0xff
+			relay := op.Tmpl == "relay"
+			for j := 0; j < n; j++ {
+				off := op.Off + j%251
+				tag := binary.LittleEndian.AppendUint32(nil, uint32(j+1))
+				e := &entry{kind: eExact, op: i, via: via, off: off, n: size}
+				if relay {
+					// what the SOCKS reader goroutine queues for every packet it read
+					a.AddJobToQueue(agent.Job{Command: agent.COMMAND_SOCKET, Data: []interface{}{agent.SOCKET_COMMAND_WRITE, int32(j + 1), buf[off : off+size]}})
+					e.cmd, e.req = agent.COMMAND_SOCKET, 0
+					e.pre = binary.LittleEndian.AppendUint32(binary.LittleEndian.AppendUint32(nil, agent.SOCKET_COMMAND_WRITE), uint32(j+1))
+					e.pure = 8 + size
+				} else {
+					e.cmd, e.req = op.Cmd, 0x40000000|uint32(i&0x3fff)<<16|uint32(j)
+					a.AddJobToQueue(agent.Job{Command: op.Cmd, RequestID: e.req, Data: []interface{}{int32(j + 1), buf[off : off+size]}})
+					e.pre = tag
+					e.pure = 4 + size
+				}
+				e.pre = binary.LittleEndian.AppendUint32(e.pre, uint32(size))
+				m.q = append(m.q, e)
+				if op.N2 > 0 && (j+1)%op.N2 == 0 {
+					if q := m.queuedAtLeast(); q > lastA.maxQueued {
+						lastA.maxQueued = q
+					}
+					bi, v := w.checkIn("a", w.root(g), true)
+					if v != nil {
+						return v
+					}
+					lastA.note(bi)
+				}
+			}
+			lastA.kinds |= 16
 		case "checkin":
 			if q := m.queuedAtLeast(); q > lastA.maxQueued {
 				lastA.maxQueued = q
@@ -415,10 +482,17 @@ func checkA(c CaseA) *core.Violation {
 }
 
 func (o *obsA) note(bi batchInfo) {
+	o.checkins++
 	if bi.noJob {
 		return
 	}
 	o.batches++
+	if bi.tasks > o.maxBatch {
+		o.maxBatch = bi.tasks
+	}
+	if bi.cut && bi.tasks > o.maxCutBatch {
+		o.maxCutBatch = bi.tasks
+	}
 	if bi.tasks >= 2 {
 		o.multi++
 	}
@@ -534,8 +608,15 @@ func classifyA(c CaseA) core.Class {
 	if o.prepErr {
 		cl.Labels = append(cl.Labels, "prepare-error")
 	}
+	cl.Labels = append(cl.Labels, scaleLabel("queued-jobs-at-a-check-in", o.maxQueued)...)
+	cl.Labels = append(cl.Labels, scaleLabel("jobs-in-one-reply", o.maxBatch)...)
+	cl.Labels = append(cl.Labels, scaleLabel("jobs-in-one-reply-leaving-a-remainder", o.maxCutBatch)...)
+	cl.Labels = append(cl.Labels, scaleLabel("check-ins-per-history", o.checkins)...)
 	cl.NonTrivial = o.maxQueued >= 2 || o.cut || o.escape
 	cl.Fingerprint = fmt.Sprintf("pd=%d|bighop=%v|q=%s|cut=%v|esc=%v|edge=%v|kinds=%x", maxDepth, bigHop, bucket(o.maxQueued), o.cut, o.escape, o.edge, o.kinds)
+	if sb, sc, sk := scaleBucket(o.maxBatch), scaleBucket(o.maxCutBatch), scaleBucket(o.checkins); sb+sc+sk != "" {
+		cl.Fingerprint += "|scale=" + sb + "/" + sc + "/" + sk
+	}
 	return cl
 }
 
